@@ -276,10 +276,22 @@ func compareTrees(o *pbt.Outcome, what, how string, a, b map[string]string, spec
 		}
 		if bv != a[p] {
 			k := fileRole(p) + "|" + diffClass(a[p], bv)
-			if fileRole(p) == "models:definition" {
+			if role := fileRole(p); role == "models:definition" || role == "cli:model" {
 				// which kind of definition is rendered differently?
 				k += "|plain-definition"
+				related := false
 				if m := reSwaggerModel.FindStringSubmatch(a[p]); m != nil && aliasRelated[strings.TrimSpace(m[1])] {
+					related = true
+				}
+				if role == "cli:model" {
+					stem := lowerAlnum(strings.TrimSuffix(filepath.Base(p), "_model.go"))
+					for n := range aliasRelated {
+						if lowerAlnum(n) == stem {
+							related = true
+						}
+					}
+				}
+				if related {
 					k = strings.TrimSuffix(k, "|plain-definition") + "|alias-of-alias-chain"
 				}
 			}
@@ -324,6 +336,16 @@ func aliasRelatedDefs(spec []byte) map[string]bool {
 		})
 	}
 	return out
+}
+
+func lowerAlnum(s string) string {
+	var sb strings.Builder
+	for _, r := range strings.ToLower(s) {
+		if (r >= 'a' && r <= 'z') || (r >= '0' && r <= '9') {
+			sb.WriteRune(r)
+		}
+	}
+	return sb.String()
 }
 
 const repeats = 3
